@@ -148,7 +148,7 @@ def check_votes(spec, out, trace, require_trace=True):
                     if g not in model.qcol or g not in model.rcol:
                         raise Violation('gene_not_shared', {'parent': parent, 'gene': g})
                 m = model.node(ci, vt, parent, genes, subsets)
-                _compare(cid, lv, rec, m, n_iter, nru, tol, stats)
+                _compare(cid, lv, rec, m, n_iter, nru, max(tol, m.get('tol', tol)), stats)
                 if factor < 1.0 and len(genes) >= 3:
                     stats['sub_lt1'] += 1
             parent = (lv, rec['assignment'])
